@@ -263,7 +263,7 @@ func c14Body(s *simkit.Sim, rc *simkit.RunCtx) {
 		for _, k := range []struct {
 			k    string
 			rate int
-		}{{seams.KVOpErr, 10}, {seams.KVCommitFail, 25}, {seams.KVCrashBeforeCommit, 12}, {seams.KVCrashAfterCommit, 14}, {seams.KVCrashBetweenHooks, 14}, {seams.KVCrashBeforeTx, 8}} {
+		}{{seams.KVOpErr, 10}, {seams.KVCommitFail, 25}, {seams.KVCrashBeforeCommit, 12}, {seams.KVCrashAfterCommit, 14}, {seams.KVCrashBetweenHooks, 14}, {seams.KVCrashBeforeTx, 8}, {seams.KVCtxCancel, 20}} {
 			if mode != 0 && s.D.Decide("enable "+k.k, 2) == 1 {
 				f.Rates[k.k] = k.rate
 				sample.FaultKinds = append(sample.FaultKinds, k.k)
